@@ -193,4 +193,127 @@ theorem u64_or_sound (a b : UInt64) : a.toNat ||| b.toNat = (a ||| b).toNat := b
 theorem u64_xor_sound (a b : UInt64) : a.toNat ^^^ b.toNat = (a ^^^ b).toNat := by simp
 theorem u64_max_sound : U64.MAX = (UInt64.ofNat (2 ^ 64 - 1)).toNat := by decide
 
+/-! ### parsing and printing (`FromStr::from_str`, `BitSeq::iter`, `Display::fmt`) -/
+set_option linter.unusedSimpArgs false
+
+theorem bind_ok_right {α} (x : Res α) : (x >>= fun a => ok a) = x := by cases x <;> rfl
+
+theorem bind_const_mapR {α β γ} (f : α → β) (x : Res α) (y : Res γ) :
+    (x >>= fun _ => y) = (mapR f x >>= fun _ => y) := by cases x <;> rfl
+
+/-- continuation of the hand model's `fromStr` after its loop -/
+def strK (x : Nat × Nat × Bool) : Res C17.BS :=
+  C17.new x.1 x.2.1 >>= fun b => if x.2.2 then ok b else .err
+
+theorem fromStr_unfold (s : List Char) : C17.fromStr s = (C17.fromStrLoop s 0 0 >>= strK) := rfl
+
+/-- continuation of the generated `from_iter` after its loop -/
+def iterK (x : Nat × Nat) : Res BitSeqS := BitSeq.new x.1 x.2
+
+theorem from_iter_unfold {T : Type} (f : T → Bit) (l : List T) :
+    BitSeq.FromIterator_T.from_iter f l = (BitSeq.FromIterator_T.from_iter_loop1 f l 0 0 >>= iterK) := rfl
+
+theorem new_big (v n : Nat) (h : 64 < n) : C17.new v n = .panic := by
+  have : ¬ n ≤ 64 := by omega
+  simp [C17.new, C17.maxLen, this, assert_false]
+
+/-- hand model: once the length counter is above 64 the result is a panic, whatever follows -/
+theorem fromStrLoop_big (s : List Char) (v n : Nat) (h : 64 < n) : (C17.fromStrLoop s v n >>= strK) = .panic := by
+  induction s generalizing v n with
+  | nil => simp [C17.fromStrLoop, strK, new_big v n h]
+  | cons c cs ih =>
+    unfold C17.fromStrLoop
+    by_cases h0 : c = '0'
+    · simp only [h0, if_true]; exact ih v (n + 1) (by omega)
+    · by_cases h1 : c = '1'
+      · simp [h0, h1, C17.shl_panic 1 n (by omega)]
+      · simp [h0, h1, strK, new_big v n h]
+
+/-- generated `from_iter`: once the length counter is above 64 the result is a panic, whatever follows -/
+theorem from_iter_loop1_big {T : Type} (f : T → Bit) (l : List T) (v n : Nat) (h : 64 < n) :
+    (BitSeq.FromIterator_T.from_iter_loop1 f l v n >>= iterK) = .panic := by
+  induction l generalizing v n with
+  | nil =>
+    have : ¬ n ≤ 64 := by omega
+    simp [BitSeq.FromIterator_T.from_iter_loop1, iterK, BitSeq.new, BitSeq.MAX_LEN, this, assert_false]
+  | cons x xs ih =>
+    unfold BitSeq.FromIterator_T.from_iter_loop1
+    cases hx : f x
+    · by_cases ha : n + 1 < 2 ^ 64
+      · simp [Bit.is_one, add_ok ha, bind_assoc', ih v (n + 1) (by omega)]
+      · simp [Bit.is_one, add_panic (Nat.le_of_not_lt ha), bind_assoc']
+    · simp [Bit.is_one, shl_eq, C17.shl_panic 1 n (by omega), bind_assoc']
+
+/-- the generated `from_str` pipeline from any loop state below the length bound -/
+theorem from_str_loop_eq (s : List Char) (v n : Nat) (h : n ≤ 64) :
+    mapR toBS ((BitSeq.FromIterator_T.from_iter_loop1 (fun (b : Bit) => b)
+        (Iter.okPrefix (s.map BitSeq.FromStr.from_str_closure1)).1 v n >>= iterK) >>= fun r =>
+        if (Iter.okPrefix (s.map BitSeq.FromStr.from_str_closure1)).2 then ok r else .err)
+      = (C17.fromStrLoop s v n >>= strK) := by
+  have hnew : ∀ v n, mapR toBS (BitSeq.new v n) = C17.new v n := by
+    intro v n
+    unfold BitSeq.new C17.new
+    have hm : BitSeq.mask n = C17.mask n := by
+      unfold BitSeq.mask C17.mask
+      simp only [decide_eq_true_eq]
+      rfl
+    simp only [hm, mapR_bind, mapR_ok]
+    rfl
+  induction s generalizing v n with
+  | nil =>
+    simp [Iter.okPrefix, BitSeq.FromIterator_T.from_iter_loop1, C17.fromStrLoop, iterK, strK, hnew, bind_ok_right]
+  | cons c cs ih =>
+    have ha : U64.add n 1 = ok (n + 1) := add_ok (by omega)
+    by_cases h0 : c = '0'
+    · subst h0
+      by_cases hn : n + 1 ≤ 64
+      · have := ih v (n + 1) hn
+        simpa [Iter.okPrefix, BitSeq.FromStr.from_str_closure1, BitSeq.FromIterator_T.from_iter_loop1,
+          C17.fromStrLoop, Bit.is_one, ha, bind_assoc'] using this
+      · have e1 := from_iter_loop1_big (fun (b : Bit) => b)
+          (Iter.okPrefix (cs.map BitSeq.FromStr.from_str_closure1)).1 v (n + 1) (by omega)
+        have e2 := fromStrLoop_big cs v (n + 1) (by omega)
+        simp [Iter.okPrefix, BitSeq.FromStr.from_str_closure1, BitSeq.FromIterator_T.from_iter_loop1,
+          C17.fromStrLoop, Bit.is_one, ha, bind_assoc', e1, e2, mapR_panic]
+    · by_cases h1 : c = '1'
+      · subst h1
+        by_cases hn : n + 1 ≤ 64
+        · have hs : C17.shl 1 n = ok (2 ^ n) := C17.shl_one n (by omega)
+          have := ih (v ||| 2 ^ n) (n + 1) hn
+          simpa [Iter.okPrefix, BitSeq.FromStr.from_str_closure1, BitSeq.FromIterator_T.from_iter_loop1,
+            C17.fromStrLoop, Bit.is_one, ha, bind_assoc', shl_eq, hs] using this
+        · have hs : C17.shl 1 n = .panic := C17.shl_panic 1 n (by omega)
+          simp [Iter.okPrefix, BitSeq.FromStr.from_str_closure1, BitSeq.FromIterator_T.from_iter_loop1,
+            C17.fromStrLoop, Bit.is_one, bind_assoc', shl_eq, hs, mapR_panic]
+      · simp [Iter.okPrefix, BitSeq.FromStr.from_str_closure1, BitSeq.FromIterator_T.from_iter_loop1,
+          C17.fromStrLoop, h0, h1, iterK, strK, mapR_bind, hnew, mapR_err]
+        rw [bind_const_mapR toBS, hnew]
+
+/-- `impl From<bool> for Bit` as the section of `toBool` -/
+def ofBool (x : Bool) : Bit := Bit.From_bool.from_ x
+
+theorem iter_closure1_eq (v k : Nat) :
+    BitSeq.iter_closure1 v k = ok (v >>> 1, ofBool (v &&& 1 == 1)) := by
+  unfold BitSeq.iter_closure1
+  have h2 : v &&& 1 = v % 2 := Nat.and_one_is_mod v
+  rcases Nat.mod_two_eq_zero_or_one v with h | h <;>
+    simp [h2, h, shr_eq, shr_lit1, Bit.From_u64.from_, ofBool, Bit.From_bool.from_]
+
+theorem iter_items_eq (n k v : Nat) :
+    BitSeq.iter_items n k v = ok ((C17.iterLoop n v).map ofBool) := by
+  induction n generalizing k v with
+  | zero => rfl
+  | succ n ih =>
+    unfold BitSeq.iter_items
+    simp [iter_closure1_eq, ih, C17.iterLoop]
+
+theorem display_fold_eq (l : List Bool) (acc : List Char) :
+    (l.map ofBool).foldl (fun f b => f ++ Bit.Display.fmt b) acc
+      = acc ++ l.map (fun x => if x then '1' else '0') := by
+  induction l generalizing acc with
+  | nil => simp
+  | cons x xs ih =>
+    rw [List.map_cons, List.foldl_cons, ih]
+    cases x <;> simp [ofBool, Bit.From_bool.from_, Bit.Display.fmt]
+
 end Yuiv.C17Gen
